@@ -31,7 +31,9 @@ RULE = ("cells = generic models (backing dense/csr/csc/function pair x domain ge
         "independently) x image shapes square / non-square, equal / different on the two sides, and image -> vector / "
         "vector -> image operators with the vector side default / Continuous1D) + shipped linear test "
         "problems (Deconvolution1D PSF x PSF size x BC x dim + legacy, Deconvolution2D PSF x PSF size x BC x dim, Abel1D "
-        "dim x field type); every cell evaluates forward on the complete domain basis and adjoint on the complete range "
+        "dim x field type; PSF size relative to the signal: smaller than, equal to and LARGER than dim - both parities "
+        "just above dim and the default 21 whatever dim is - so that the boundary extension is longer than the signal "
+        "itself and a periodic one wraps around more than once); every cell evaluates forward on the complete domain basis and adjoint on the complete range "
         "basis of the real model, its get_matrix() and its transpose model T (taken before and after the matrix is "
         "cached); generic cells are also compared with an independent dense reference fun2par_range . A . par2fun_domain "
         "written out in numpy from the documented conventions (reshape/ravel order of the image kinds, identity-like, "
@@ -64,8 +66,9 @@ BOUND = {
              "shift: 2x3, 3x3; transposition: 2x3, "
              "3x3} + image<->vector {(2x3)->4, (3x3)->2, 4->(2x3), 2->(3x3)} x 6 image kinds x 2 vector kinds; the same "
              "shapes with numpy.int64 shape entries x 4x4 canonical image kinds; 4 "
-             "view-returning function pairs; Deconvolution1D dim {7,8} x 4 PSFs x PSF size {3,4,dim} x 5 BCs + "
-             "legacy (dim 8, 4 PSFs); Deconvolution2D dim {5,6} x 4 PSFs x PSF size {3,4,5} x 5 BCs; Abel1D dim {4,7} x "
+             "view-returning function pairs; Deconvolution1D dim {7,8} x 4 PSFs x PSF size {3,4,dim,dim+1,dim+2,21} x 5 BCs "
+             "+ legacy (dim 8, 4 PSFs); Deconvolution2D dim {5,6} x 4 PSFs x PSF size {3,4,5,dim+1,dim+2,21} x 5 BCs; "
+             "Abel1D dim {4,7} x "
              "4 field types; option spellings: Deconvolution1D dim 8 / Deconvolution2D dim 5, PSF size 3, 3 named PSFs x 5 "
              "BCs x {Capitalised, UPPER} (both names in the same style), 9 legacy PSF spellings; numpy.int64 dim / "
              "PSF_size / n_steps / num_modes: Deconvolution1D dim 8 and Deconvolution2D dim 5 x {gauss, custom} x size 3 x "
@@ -77,8 +80,8 @@ BOUND = {
                 "shapes, matrix-backed image models with 6x6 image kinds x 6 (L, image) shapes, generic 2-D L.X.R 6 "
                 "shape pairs, shift 5 "
                 "shapes, transposition 3 shapes, image<->vector 3+3 shapes, all with 6x6 image kinds x {int, numpy.int64}, "
-                "Deconvolution1D dim {7,8,12}, PSF size {3,4,5,6,dim}, Deconvolution2D "
-                "dim {5,6,8} PSF size {3,4,5,6}, Abel1D dim {4,7,10}; option spellings of the shipped problems: PSF style x "
+                "Deconvolution1D dim {7,8,12}, PSF size {3,4,5,6,dim,dim+1,dim+2,2dim+1,21}, Deconvolution2D "
+                "dim {5,6,8} PSF size {3,4,5,6,dim+1,dim+2,2dim+1,21}, Abel1D dim {4,7,10}; option spellings of the shipped problems: PSF style x "
                 "BC style independently (3x3-1) x PSF size {3,4}; numpy.int64 shipped cells x 4 PSFs x size {3,4}; 4 input "
                 "representations on all four maps of "
                 "every cell",
@@ -112,6 +115,9 @@ ASSUMPTIONS = [
     "order 'A'/'K', which are not documented for Image2D; field_type of Abel1D, compared exactly) are not part of the "
     "alphabet; a bare numpy.int64 standing for the default 1-D geometry is refused by Model as documented ('int') and "
     "is not used",
+    "PSF_size of Deconvolution1D/2D is documented as an integer with default 21 independent of dim and no upper "
+    "limit, so a PSF larger than the signal / image is part of 'all their options' (it IS the default for dim < 21); "
+    "the oracle there is the same as for every other size (G == F^T, get_matrix, T), a refusal (raise) is accepted",
     "for the shipped problems the oracle of a re-spelled / numpy-integer option is the differential one (same F and G "
     "as the canonical spelling, plus all identities of this property); whether the canonical operator is the "
     "documented convolution is C17's subject",
@@ -177,6 +183,15 @@ LEGACY_SPELLINGS = [("gauss", "Gauss"), ("gauss", "GAUSS"), ("sinc", "Sinc"), ("
 
 def _styled(name, style):
     return {"lower": name.lower(), "Cap": name.capitalize(), "UPPER": name.upper()}[style]
+
+
+def _oversizes(dim, thorough):
+    """PSF-size-relative-to-the-signal facet of the shipped deconvolution problems: PSF_size is accepted for any
+    positive integer and defaults to 21 whatever dim is, so a PSF LARGER than the signal / image is a legal (and, for
+    small dim, the default) configuration: the boundary extension is then longer than the signal itself (the periodic
+    one wraps around more than once, the reflecting ones reflect repeatedly).  Sizes: the two parities just above dim
+    (dim + 1, dim + 2), the default 21 (> 2 dim for every dim of the catalogue), thorough also 2 dim + 1."""
+    return [dim + 1, dim + 2, 21] + ([2 * dim + 1] if thorough else [])
 
 
 def gen2_shapes(thorough):
@@ -276,6 +291,7 @@ def cells(tier, seed):
     dims1 = [7, 8] if not thorough else [7, 8, 12]
     for dim in dims1:
         sizes = [3, 4, dim] if not thorough else [3, 4, 5, 6, dim]
+        sizes = sizes + _oversizes(dim, thorough)
         for psf in tp.PSF_NAMES:
             for size in sizes:
                 for bc in tp.BC_1D:
@@ -286,6 +302,7 @@ def cells(tier, seed):
     dims2 = [5, 6] if not thorough else [5, 6, 8]
     for dim in dims2:
         sizes = [3, 4, 5] if not thorough else [3, 4, 5, 6]
+        sizes = sorted(set(sizes + _oversizes(dim, thorough)))
         for psf in tp.PSF_NAMES:
             for size in sizes:
                 for bc in tp.BC_2D:
